@@ -133,6 +133,26 @@ def campaign(c):
             elif 'error' not in out:
                 c.violation('io:no-diagnostic:' + name, '%s: no diagnostic printed' % name, dict(args=args, out=out))
             c.case(('other', name), dict(kind=name, rc=rc, out=out[-160:]))
+        # output into a named pipe whose reader has gone away before anything is written (EPIPE at whatever write comes first - for a
+        # small program the final flush): a failure like any other
+        for prog_src, tagp in ((src, 'small'), (big_program(3, 4000), 'several-buffers'), (b'', 'empty')):
+            fifo = os.path.join(d, 'out-%s.fifo' % tagp); os.mkfifo(fifo)
+            pr = subprocess.Popen([core.CLI, '--color', 'never', '-k', '-o', fifo, '/dev/stdin'], stdin=subprocess.PIPE, stdout=subprocess.PIPE, stderr=subprocess.PIPE, cwd=d)
+            import threading
+            th = threading.Thread(target=lambda: os.close(os.open(fifo, os.O_RDONLY)), daemon=True)     # the writer's open() returns once a reader is there; the reader leaves at once
+            th.start(); th.join(30)
+            if th.is_alive():
+                pr.kill(); os.close(os.open(fifo, os.O_WRONLY | os.O_NONBLOCK)) if False else None
+                c.count('closed-pipe-not-reached'); continue
+            out_, err_ = pr.communicate(prog_src, timeout=60)
+            name = 'closed-pipe:' + tagp
+            if b'panicked' in err_ or pr.returncode not in (0, 1):
+                c.violation('io:panic:' + name, '%s: panic / abnormal exit %d: %s' % (name, pr.returncode, err_[-160:].decode('utf-8', 'replace')), dict(kind=name))
+            elif pr.returncode == 0 or b' ok' in out_:
+                c.violation('io:claimed-success:' + name, '%s: nothing could be written, the run claims success' % name, dict(kind=name, out=out_.decode('utf-8', 'replace')[-200:]))
+            elif b'error' not in out_:
+                c.violation('io:no-diagnostic:' + name, '%s: no diagnostic printed' % name, dict(kind=name))
+            c.case(('other', name), dict(kind=name, rc=pr.returncode))
         # the same faults with paths that are not valid UTF-8 / contain spaces, newlines, non-ASCII characters: a path is bytes
         db = os.fsencode(d)
         for tagp, odd in (('latin1', b'caf\xe9'), ('space', b'with space'), ('newline', b'new\nline'), ('utf8', 'dätei'.encode()), ('invalid', b'\xff\xfe')):
